@@ -4,6 +4,7 @@ import Refinery.Model.Auth
 Oracle for ingest authorization and key replacement (C24).
 case args: mode=<enc> aolk=<0|1> sk=<enc> rk=<enc,..|-> rkid=<enc,..|-> auth=… grid=<0|1>
 op:        req ep=<endpoint> hdr=<long|short|none> key=<enc>
+           reconf mode=… aolk=… sk=… rk=… rkid=…      (configuration reloaded; no obs)
 ext:       legacy <enckey> = <0|1>        authid <enckey> = <encid>
 obs:       st=<ok|unauth|other:..> why=<-|unlisted|blank|nohdr|other> sent=<enc,..|->
 
@@ -66,6 +67,7 @@ def endpointOf : String → Option Endpoint
   | "otlp-logs-http" => some .otlpLogsHTTP
   | "otlp-traces-grpc" => some .otlpTracesGRPC
   | "otlp-logs-grpc" => some .otlpLogsGRPC
+  | "v1-mw" => some .event      -- one kept instance of `apiKeyProcessor`: the same composition as the /1/ endpoints
   | _ => none
 
 def whyStr : Why → String
@@ -100,6 +102,9 @@ def parseReq (op : List String) : Option Req :=
   | _ => none
 
 def authStep (c : Cfg) (op : List String) (exts : List (List String)) : Cfg × Option String :=
+  match op with
+  | "reconf" :: args => (cfgOf args, none)    -- every endpoint reads the configuration in force per request
+  | _ =>
   match parseReq op with
   | none => (c, some "bad-op")
   | some r => (c, some (resultStr (serve r.ep c (envOf exts) r.long r.short)))
@@ -110,8 +115,14 @@ by key ID; upstream key from the documented table (`docOutcome`); nothing leaves
 to configurations that list the empty string as a receive key (the documentation does not say
 whether such a blank key is "blank" or "listed"); those are covered by the model comparison only. -/
 def authMon (c : Cfg) (op : List String) (exts : List (List String)) (obs : Option String) : Cfg × List Fail :=
+  match op with
+  | "reconf" :: args => (cfgOf args, [])
+  | _ =>
   match parseReq op, obs with
   | some r, some o =>
+    -- the property is observed at the ingest endpoints; the kept `apiKeyProcessor` instance
+    -- (`ep=v1-mw`) is compared with the model only
+    if r.epName == "v1-mw" then (c, []) else
     let toks := o.splitOn " "
     let st := (kv toks "st").getD "?"
     let sent := decList ((kv toks "sent").getD "-")
